@@ -65,6 +65,14 @@ Section WriteFromEmit.
   Qed.
 End WriteFromEmit.
 
+(* closing the socket, from its two elementary updates (for relations that do not care in which order they happen) *)
+Lemma close_socket_parts (P : conn -> conn -> Prop) :
+  (forall c, P c c) -> (forall a b c, P a b -> P b c -> P a c) ->
+  (forall c, P c (c <| k_sock := false |>)) -> (forall c, P c (emit TSockClose c)) -> forall c, P c (close_socket c).
+Proof.
+  intros R T S E c. unfold close_socket. destruct (k_sock c); [|apply R]. eapply T; [apply S|apply E].
+Qed.
+
 (* ---------- a generic "frame" argument ----------
    P is any preorder on connection states that every elementary field update of the model respects.
    Then every function of the model below the parser level (everything except on_item/feed/loop, which
@@ -79,7 +87,6 @@ Section Frame.
   (* the one place where frames reach the socket; opcodes are 4-bit *)
   Hypothesis P_send : forall c op r p, op < 16 -> P c (fst (send_frame c op r p)).
   Hypothesis ok_call : forall r, ok_item (TCall r).
-  Hypothesis ok_sockclose : ok_item TSockClose.
   Hypothesis ok_deflate : forall e i, ok_item (TDeflate e i).
   Hypothesis ok_inflate : forall e i, ok_item (TInflate e i).
   Hypothesis P_keys : forall c x, P c (c <| k_keys := x |>).
@@ -90,7 +97,8 @@ Section Frame.
   Hypothesis P_zout : forall c f, P c (c <| k_zout ::= f |>).
   Hypothesis P_ztape : forall c x, P c (c <| k_ztape := x |>).
   Hypothesis P_zin : forall c f, P c (c <| k_zin ::= f |>).
-  Hypothesis P_sock : forall c, P c (c <| k_sock := false |>).
+  (* socket.close(): the flag and the trace item together, so that an instance may relate them *)
+  Hypothesis P_close_socket : forall c, P c (close_socket c).
   Hypothesis P_done : forall c, P c (c <| k_closed := true |> <| k_closing := false |>).   (* handshake complete / on_disconnect *)
   Hypothesis P_with : forall c x, P c (c <| k_with := x |>).
   Hypothesis P_poll : forall c x, P c (c <| k_poll_start := x |>).
@@ -130,7 +138,7 @@ Section Frame.
       destruct (125 <? _); try apply P_refl; apply fr_send_frame; reflexivity.
   Qed.
   Lemma fr_close_socket c : P c (close_socket c).
-  Proof. unfold close_socket. destruct (k_sock c); [|apply P_refl]. tr; [apply P_sock|apply fr_emit; exact ok_sockclose]. Qed.
+  Proof. apply P_close_socket. Qed.
   Lemma fr_on_disconnect c : P c (on_disconnect c).
   Proof. unfold on_disconnect. tr; [apply fr_close_socket|apply P_done]. Qed.
   Lemma fr_do_actions acts : forall c, P c (fst (do_actions c acts)).
@@ -326,6 +334,7 @@ End Frame.
 Definition same_ps (c c' : conn) : Prop := k_ps c' = k_ps c.
 Ltac inst_frame L := first [eapply L with (P := same_ps) (ok_item := fun _ => True) | eapply L with (P := same_ps)];
                        try (intros; apply send_from_emit with (ok_item := fun _ => True));
+                       try (intros c0; unfold close_socket; destruct (k_sock c0); reflexivity);
                        try (intros; reflexivity); try (unfold same_ps; intros; congruence); try (intros; exact I);
                        try (intros e0; destruct e0; exact I).
 
@@ -384,7 +393,7 @@ Section WithCfg.
   (* once closed, always closed *)
   Definition closed_mono (c c' : conn) : Prop := k_closed c = true -> k_closed c' = true.
   Ltac inst_mono L := first [eapply L with (P := closed_mono) (ok_item := fun _ => True) | eapply L with (P := closed_mono)];
-                      try (intros; apply send_from_emit with (ok_item := fun _ => True)); try (unfold closed_mono; intros; cbn; auto; fail); try (unfold closed_mono; intros; eauto);
+                      try (intros; apply send_from_emit with (ok_item := fun _ => True)); try (intros c0; unfold closed_mono, close_socket; destruct (k_sock c0); cbn; auto; fail); try (unfold closed_mono; intros; cbn; auto; fail); try (unfold closed_mono; intros; eauto);
                       try (intros; exact I).
 
   Lemma closed_feed_yield c e post : (forall c, closed_mono c (fst (post c))) -> closed_mono c (fst (feed_yield cf app c e post)).
